@@ -2,6 +2,7 @@ package ch
 
 import (
 	"context"
+	"net"
 
 	"github.com/go-faster/errors"
 	"go.opentelemetry.io/otel/trace"
@@ -54,9 +55,19 @@ func (c *Client) handshake(ctx context.Context) error {
 			return errors.Wrap(err, "flush")
 		}
 
-		code, err := c.packet(ctx)
-		if err != nil {
-			return errors.Wrap(err, "packet")
+		var code proto.ServerCode
+		for {
+			// Hello can arrive at any time before handshake timeout, so
+			// single packet read timeout should be retried.
+			var err error
+			if code, err = c.packet(ctx); err != nil {
+				var opErr *net.OpError
+				if errors.As(err, &opErr) && opErr.Timeout() && ctx.Err() == nil {
+					continue
+				}
+				return errors.Wrap(err, "packet")
+			}
+			break
 		}
 		if code == proto.ServerCodeException {
 			// Bad password, etc.
